@@ -1078,7 +1078,7 @@ impl Model {
             .filter(|g| g.delivered_to.is_empty() && self.content_is(g.idx, topic, payload))
             .map(|g| g.idx)
             .min();
-        let candidates: Vec<String> = self.clients[ci]
+        let mut cand: Vec<(bool, String)> = self.clients[ci]
             .subs
             .iter()
             .filter(|s| {
@@ -1087,8 +1087,11 @@ impl Model {
                     && ref_matches(topic, &s.match_filter)
                     && (s.active || newest_undelivered.is_some_and(|i| s.closed_at.is_some_and(|c| i < c)))
             })
-            .filter_map(|s| s.group.clone())
+            .filter_map(|s| s.group.clone().map(|g| (!s.active, g)))
             .collect();
+        // (memberships that still exist explain a forward before memberships that have ended)
+        cand.sort_by_key(|(ended, _)| *ended);
+        let candidates: Vec<String> = cand.into_iter().map(|(_, g)| g).collect();
         // a member of several groups on one topic gets a message once per group: the
         // forward is attributed to a group that still owes this content to somebody
         let via_group: Option<String> = candidates
